@@ -14,6 +14,12 @@ Supported subset (anything else raises TranslationError => generation fails => d
                expression statements that are logging calls (skipped) ; pass ; docstrings
                `with <ctx>:` blocks are entered (the context manager itself is ignored: locks)
                try: <single assignment> except (...): pass   only when listed in spec["ignore_try"]
+               opt-in (state skeletons whose result is the tuple spec["fallthrough"] of the current values):
+                 bare `return`                      only with spec["bare_return"] = True  (-> the fall-through tuple)
+                 try: B except E: H else: L          only when the source text of the first statement of B is a key of
+                                                    spec["try_as_if"] = {text: flag}: translated as
+                                                    `if flag then H else B; L` (flag = "the guarded call raised E");
+                                                    no finally, exactly one handler
   expressions: int / bool constants, names, attribute reads mapped to parameters by spec["attrs"],
                + - * // % << >> & | ^ ~ unary- , comparisons (chains), and / or / not, conditional expr,
                x in <tuple/list param>, min(l), len(l) for list params, calls mapped by spec["calls"].
@@ -176,12 +182,21 @@ class Tr:
         if self.src(st) in self.spec.get("stmts", {}):     # whole-statement mapping: "let x := e"
             return f"{self.spec['stmts'][self.src(st)]} in\n  {self.block(rest, tail)}"
         if isinstance(st, ast.Return):
-            if st.value is None: raise TranslationError("bare return")
+            if st.value is None:
+                if self.spec.get("bare_return"):
+                    return tail if self.spec.get("fallthrough") is None else self.spec["fallthrough"]
+                raise TranslationError("bare return")
             return self.result(st.value)
         if isinstance(st, ast.Raise):
             return self.ret_err
         if isinstance(st, ast.With):
             return self.block(list(st.body) + rest, tail)
+        if isinstance(st, ast.Try) and st.body and self.src(st.body[0]) in self.spec.get("try_as_if", {}):
+            if st.finalbody or len(st.handlers) != 1:
+                raise TranslationError("try_as_if: finally / several handlers")
+            flag = self.spec["try_as_if"][self.src(st.body[0])]
+            return (f"if {flag}\n  then ({self.block(list(st.handlers[0].body) + rest, tail)})\n"
+                    f"  else ({self.block(list(st.body) + list(st.orelse) + rest, tail)})")
         if isinstance(st, ast.Try):
             if self.src(st) not in self.spec.get("ignore_try", ()) and ast.unparse(st.body[0]) not in self.spec.get("ignore_try", ()):
                 raise TranslationError(f"try statement: {self.src(st)[:80]}")
